@@ -77,8 +77,39 @@ def check_request(req, body, secret, region, host, problems):
         problems.append({'problem': 'content-length != body length'})
 
 
+class Clock:
+    """the adapter's clock: successive requests of ONE client object happen at instants that straddle
+    midnight, month and year ends (the property quantifies over all timestamps)"""
+    import datetime as _dt
+    INSTANTS = [_dt.datetime(2026, 1, 31, 23, 59, 58), _dt.datetime(2026, 2, 1, 0, 0, 1), _dt.datetime(2026, 2, 1, 12, 0, 0),
+                _dt.datetime(2026, 12, 31, 23, 59, 59), _dt.datetime(2027, 1, 1, 0, 0, 0), _dt.datetime(2027, 1, 1, 9, 5, 7),
+                _dt.datetime(2028, 2, 29, 0, 0, 0)]
+
+    def __init__(self):
+        self.n = 0
+        real = self._dt.datetime
+        clock = self
+
+        class FakeDateTime(real):
+            @classmethod
+            def utcnow(cls):
+                return clock.tick()
+
+            @classmethod
+            def now(cls, tz=None):
+                t = clock.tick()
+                return t.replace(tzinfo=tz) if tz is not None else t
+        self.cls = FakeDateTime
+
+    def tick(self):
+        t = self.INSTANTS[self.n % len(self.INSTANTS)]
+        self.n += 1
+        return t
+
+
 async def scenario(names, prefix, tokens, payload, chunk_size):
     problems, seen = [], []
+    s3c.datetime = Clock().cls
     secret, region, host = 'sEcr/et+key', 'eu-test-1', 'objects.example.test'
     pages = list(tokens)
 
